@@ -42,6 +42,10 @@ var verifC22Skeletons = []string{
 	"@read a.get#8ef1d9d6 id:int64 _:int32 => []a.point;\n@write a.set#8ef1d9d7 p:a.point => ;\na.p<x:Type,n:#> = v:[n]x m:[string]x w:[3][]a.p<int32,5>;\n",
 	"// leading comment\na.c#0badcafe = // right comment\n  f1:int32 // c1\n  f2?:string;\na.e = red | green | blue;\na.empty = ;\n",
 	// one- and multi-line comments in every position the grammar attaches them to (combinator, variant, variant field, struct field, argument)
+	// unions with a single variant (recognised by the leading bar only): bare, with fields, with an explicit magic, commented, and over the one-line width
+	"a.mono = | Green;\na.monof#0badcaf1 = | one x:int32 y?:[3]int32;\n// c\na.monoc =\n    // v\n    | only a.mono;\na.monolong = | theOnlyVariantWithAVeryLongName firstFieldWithALongName:int64 secondFieldWithALongName:[17]string thirdFieldWithALongName?:a.mono fourth:int32;\n",
+	// structs, variants and functions with exactly one commented field / argument, and an empty struct with a trailing comment
+	"a.single =\n    // only\n    value:string;\na.single2 = v:int32; // r\na.us = | one\n    // f\n    x:int32;\n@read a.f1#8ef1d9d6\n    // arg\n    id:int64\n    => a.single;\n",
 	"// top 1\n// top 2\na.u = // eq right\n    // v1 l1\n    // v1 l2\n    | one\n        // f l1\n        //   f l2 indented\n        x:int32 // fr\n        y:int32\n    // v2 l1\n    //\tv2 l2 tabbed\n    //v2 l3 tight\n    | two\n    // v3\n    | three a.point;\n// fn 1\n// fn 2\n@read a.get#8ef1d9d6\n    // arg l1\n    // arg l2\n    id:int64 // ar\n    => int32;\na.point =\n    // s l1\n    // s l2\n    x:int32 // r\n    // t l1\n    //  t l2\n    y?:string;\n",
 }
 
